@@ -211,6 +211,21 @@ func (cx *Ctx) oracleC15(rs []JobResult) (bool, string, string, string) {
 		return true, key, what, fpOf(key)
 	}
 	// O1
+	spawned, cut := false, false
+	for _, o := range append(append([]spec.Outcome{}, res.Outcomes...), res.Solo...) {
+		if o.Tasks > 1 {
+			spawned = true
+		}
+		if o.Verdict == "BUDGET" {
+			cut = true
+		}
+	}
+	if spawned && cut {
+		// a call that exceeded a budget was cut short, and the library runs goroutines of its own: those it shares with
+		// the other callers (long-lived workers) may have been stopped with it. In real Go the slow call would simply go
+		// on; here the other callers' outcomes say nothing about interference. Not judged.
+		return false, "", "", ""
+	}
 	for i := range res.Outcomes {
 		if i >= len(res.Solo) {
 			break
@@ -236,9 +251,8 @@ func (cx *Ctx) oracleC15(rs []JobResult) (bool, string, string, string) {
 			}
 			return true, "interference | result differs under concurrency", what, fpOf(a.Hash, b.Hash)
 		}
-		if b.LeakedTasks > 0 {
-			return true, "goroutine-outlives-call", fmt.Sprintf("caller %d: %d goroutine(s) spawned by Layout were still running when it returned", i, b.LeakedTasks), fpOf("leak")
-		}
+		// goroutines that Layout started and that were still alive when it returned (b.LeakedTasks) are not judged: the
+		// property does not forbid a long-lived worker; they stay in the simulated process and run under later schedules
 	}
 	return false, "", "", ""
 }
